@@ -153,7 +153,7 @@ TPropagate == IsEv("Raised") /\ Propagate(Ev.same) /\ Consume /\ Note({})
 TCrash == /\ IsEv("Raised") /\ pc \notin {"Raised", "Idle", "Done", "Lost"} /\ ~Ev.injected
           /\ out' = [kind |-> "crashed"] /\ pc' = "Done"
           /\ UNCHANGED <<cfg, chain, nit, nfev, njev, nit0, n0, f0r, x, fx, fAt, gAt, pg, memo,
-                         mem, matsOf, ls, task, success, calls, lastCb, snap, npts, gen, uphill, fault>>
+                         mem, matsOf, ls, task, success, calls, lastCb, snap, npts, gen, fgen, uphill, fault>>
           /\ Consume /\ Note({IF cfg.fd THEN "C16_NoRaise" ELSE "Conf_UnexpectedRaise"})
 
 TCrashLS == /\ IsEv("LSEnd") /\ Ev.ret = "exc" /\ fault = "none"
@@ -175,7 +175,7 @@ Diverge == /\ More /\ pc # "Lost" /\ ~ENABLED Main
            /\ pc' = "Lost" /\ l' = Len(Tr) + 1 /\ tid' = tid
            /\ PrintT(<<"DIVERGE", tid, l, pc, Ev.e>>)
            /\ UNCHANGED <<cfg, chain, nit, nfev, njev, nit0, n0, f0r, x, fx, fAt, gAt, pg, memo,
-                          mem, matsOf, ls, task, success, calls, lastCb, snap, npts, gen, uphill,
+                          mem, matsOf, ls, task, success, calls, lastCb, snap, npts, gen, fgen, uphill,
                           fault, out>>
 
 Finish == /\ l = Len(Tr) + 1 /\ pc \in {"Done", "Lost"}
